@@ -129,7 +129,37 @@ def collect():
     # leaves nothing in the transaction table and raises to the caller: (manager, where, entries afterwards, raised)
     d('asyncFailedSend', 'List (String × String × Nat × Bool)',
       lean_list('(%s, %s, %d, %s)' % (lean_str(k), lean_str(w), n, 'true' if r else 'false') for k, w, n, r in async_failed_send()))
+    # events.py / ModbusControlBlock event log, OBSERVED: every flag combination encoded by the real classes, and the length of
+    # the log after 100 addEvent calls (the log is emptied again)
+    ev_rows, cap = event_observation()
+    d('eventEncodeTable', 'List (String × List Nat × List Nat)',
+      lean_list('(%s, %s, %s)' % (lean_str(k), lean_list(str(x) for x in fl), lean_list(str(x) for x in bs)) for k, fl, bs in ev_rows))
+    d('eventLogCap', 'Nat', str(cap))
     return out
+
+
+def event_observation():
+    import itertools
+    from pymodbus import events as ev
+    from pymodbus.device import ModbusControlBlock
+    kinds = [('recv', ev.RemoteReceiveEvent, ['overrun', 'listen', 'broadcast']),
+             ('send', ev.RemoteSendEvent, ['read', 'slave_abort', 'slave_busy', 'slave_nak', 'write_timeout', 'listen']),
+             ('listen', ev.EnteredListenModeEvent, []), ('restart', ev.CommunicationRestartEvent, [])]
+    rows = []
+    for k, cls, names in kinds:
+        for flags in itertools.product([0, 1], repeat=len(names)):
+            rows.append((k, list(flags), list(cls(**dict(zip(names, map(bool, flags)))).encode())))
+    mcb = ModbusControlBlock()
+    saved = mcb.Counter.Event
+    try:
+        mcb.clearEvents()
+        for _ in range(100):
+            mcb.addEvent(ev.CommunicationRestartEvent())
+        cap = len(mcb.getEvents())
+    finally:
+        mcb.clearEvents()
+        mcb.Counter.Event = saved
+    return rows, cap
 
 
 def async_failed_send():
